@@ -45,7 +45,7 @@ MC_KeyRank == [c \in CandU |-> IdRanks.scope[CandName(c)]]
 
 MC_CandU == {<<1, "w0", "n1">>, <<2, "w0", "n1">>, <<3, "w0", "n1">>, <<4, "w0", "n2">>,
              <<5, "w0", "n1">>, <<6, "w0", "n0">>, <<7, "w0", "n0">>, <<8, "w0", "n1">>,
-             <<9, "w0", "n2">>, <<10, "w0", "n1">>, <<1, "w1", "n0">>, <<4, "w1", "n1">>}
+             <<9, "w0", "n2">>, <<10, "w0", "n1">>, <<1, "w1", "n0">>, <<4, "w1", "n1">>, <<4, "w0", "n1">>}
 
 \* ---- pre-states -------------------------------------------------------------
 Build(ops) == ApplyOps(EmptyState, ops).s
